@@ -11,8 +11,9 @@
    what the cell reference -b selects; [some_positive es p]: what +b selects.
    [pl v]: the three card entries of a vector. *)
 From Coq Require Import List ZArith NArith Bool Reals Lra.
-From T4V Require Import Base.Scalar C03.Vec C03.Model C03.Spec C03.ProofsPlanes
-  C03.ProofsQuad C03.ProofsArb C03.ProofsExpand C03.ProofsFacet C03.Proofs.
+From T4V Require Import Base.Scalar C03.Vec C03.Model C03.Convert C03.Spec C03.SpecT4
+  C03.ProofsPlanes C03.ProofsQuad C03.ProofsArb C03.ProofsExpand C03.ProofsFacet
+  C03.ProofsConvert C03.ProofsWritten C03.Proofs.
 Import ListNotations.
 Open Scope R_scope.
 
@@ -366,6 +367,198 @@ Theorem C03_expand_facet_zero_is_last : forall (ids : list Z) (new_key n last : 
 Proof. exact expand_facet_zero_is_last. Qed.
 Print Assumptions C03_expand_facet_zero_is_last.
 
+(* ================================================================== *)
+(* What is WRITTEN.  body_t4 = the body function followed, for every     *)
+(* entry, by the model of to_surface_mcnp, Transformation.transformation *)
+(* (tr = Some t: a TR on the surface card, or the TRCL / FILL            *)
+(* transformation applied by pot_transform; rows of B orthonormal) and   *)
+(* conversion_surface_params.  t4_value (C03/SpecT4.v) is the reading of *)
+(* a TRIPOLI-4 SURF line (DESIGN Appendix B); same_t4_facet g t f: the   *)
+(* written surface t, with its side, is the facet f read at g p, where   *)
+(* g p = B (p - O) is MCNP's auxiliary frame (identity without tr).      *)
+(* ================================================================== *)
+(* one entry: the PLUS side of the written surface is the positive side of the
+   entry's MCNP equation, for every branch of convert_plane / convert_cylinder /
+   convert_sphere / convert_quadric / convert_cone *)
+Theorem C03_convert_entry_sound : forall (tr : option rtransf) (e : rentry),
+  tr_ok tr -> entry_wf e ->
+  exists t prm c, 0 < c /\ convert_entry RS tr e = Ok [(t, prm, snd e)] /\
+    forall p, t4_value t prm p = c * eval_surf (fst (fst e)) (snd (fst e)) (frame_of tr p).
+Proof. exact convert_entry_sound. Qed.
+Print Assumptions C03_convert_entry_sound.
+
+(* -b and +b over the written surfaces *)
+Theorem C03_written_inside : forall g (ts : list rt4e) (fs : list (pt -> R)) (p : pt),
+  Forall2 (same_t4_facet g) ts fs ->
+  (t4_all_negative ts p <-> inside_of fs (g p)) /\
+  (t4_some_positive ts p <-> outside_of fs (g p)).
+Proof. exact t4_facets_inside. Qed.
+Print Assumptions C03_written_inside.
+
+Theorem C03_box_written : forall (tr : option rtransf) (v a1 a2 a3 : pt),
+  tr_ok tr -> box_admissible a1 a2 a3 ->
+  exists ts, body_t4 RS tr BOX (pl v ++ pl a1 ++ pl a2 ++ pl a3) [] = Ok ts /\
+    Forall2 (same_t4_facet (frame_of tr)) ts (box_facets v a1 a2 a3).
+Proof. exact box_written. Qed.
+Print Assumptions C03_box_written.
+
+Theorem C03_rpp_written : forall (tr : option rtransf) (x0 x1 y0 y1 z0 z1 : R),
+  tr_ok tr ->
+  exists ts, body_t4 RS tr RPP [x0; x1; y0; y1; z0; z1] [] = Ok ts /\
+    Forall2 (same_t4_facet (frame_of tr)) ts (rpp_facets x0 x1 y0 y1 z0 z1).
+Proof. exact rpp_written. Qed.
+Print Assumptions C03_rpp_written.
+
+Theorem C03_sph_written : forall (tr : option rtransf) (c : pt) (r : R),
+  tr_ok tr ->
+  exists ts, body_t4 RS tr SPH (pl c ++ [r]) [] = Ok ts /\
+    Forall2 (same_t4_facet (frame_of tr)) ts (sph_facets c r).
+Proof. exact sph_written. Qed.
+Print Assumptions C03_sph_written.
+
+Theorem C03_rcc_written : forall (tr : option rtransf) (v h : pt) (r : R),
+  tr_ok tr -> h <> (0, 0, 0) ->
+  exists ts, body_t4 RS tr RCC (pl v ++ pl h ++ [r]) [] = Ok ts /\
+    Forall2 (same_t4_facet (frame_of tr)) ts (rcc_facets v h r).
+Proof. exact rcc_written. Qed.
+Print Assumptions C03_rcc_written.
+
+Theorem C03_rhp15_written : forall (tr : option rtransf) (v h r s t : pt),
+  tr_ok tr -> h <> (0, 0, 0) -> r <> (0, 0, 0) -> s <> (0, 0, 0) -> t <> (0, 0, 0) ->
+  exists ts, body_t4 RS tr RHP (pl v ++ pl h ++ pl r ++ pl s ++ pl t) [] = Ok ts /\
+    Forall2 (same_t4_facet (frame_of tr)) ts (rhp_facets v h r s t).
+Proof. exact rhp15_written. Qed.
+Print Assumptions C03_rhp15_written.
+
+Theorem C03_rhp9_written : forall (tr : option rtransf) (v h r : pt),
+  tr_ok tr -> h <> (0, 0, 0) -> dot r h = 0 -> r <> (0, 0, 0) ->
+  exists ts, body_t4 RS tr RHP (pl v ++ pl h ++ pl r) [] = Ok ts /\
+    Forall2 (same_t4_facet (frame_of tr)) ts (rhp_regular_facets v h r).
+Proof. exact rhp9_written. Qed.
+Print Assumptions C03_rhp9_written.
+
+Theorem C03_rec12_written : forall (tr : option rtransf) (v h a1 a2 : pt),
+  tr_ok tr -> h <> (0, 0, 0) -> a1 <> (0, 0, 0) -> a2 <> (0, 0, 0) ->
+  exists ts, body_t4 RS tr REC (pl v ++ pl h ++ pl a1 ++ pl a2) [] = Ok ts /\
+    Forall2 (same_t4_facet (frame_of tr)) ts (rec_facets v h a1 a2).
+Proof. exact rec12_written. Qed.
+Print Assumptions C03_rec12_written.
+
+Theorem C03_rec10_written : forall (tr : option rtransf) (v h a1 : pt) (b : R),
+  tr_ok tr -> cross h a1 <> (0, 0, 0) -> b <> 0 ->
+  exists ts, body_t4 RS tr REC (pl v ++ pl h ++ pl a1 ++ [b]) [] = Ok ts /\
+    Forall2 (same_t4_facet (frame_of tr)) ts (rec_facets v h a1 (rec10_minor h a1 b)).
+Proof. exact rec10_written. Qed.
+Print Assumptions C03_rec10_written.
+
+Theorem C03_trc_written : forall (tr : option rtransf) (v h : pt) (r0 r1 : R),
+  tr_ok tr -> h <> (0, 0, 0) -> r0 <> r1 ->
+  exists ts, body_t4 RS tr TRC (pl v ++ pl h ++ [r0; r1]) [] = Ok ts /\
+    Forall2 (same_t4_facet (frame_of tr)) ts (trc_facets v h r0 r1).
+Proof. exact trc_written. Qed.
+Print Assumptions C03_trc_written.
+
+Theorem C03_ell_axis_written : forall (tr : option rtransf) (c a : pt) (mb : R),
+  tr_ok tr -> a <> (0, 0, 0) -> mb < 0 ->
+  exists ts, body_t4 RS tr ELL (pl c ++ pl a ++ [mb]) [] = Ok ts /\
+    Forall2 (same_t4_facet (frame_of tr)) ts (ell_axis_facets c a mb).
+Proof. exact ell_axis_written. Qed.
+Print Assumptions C03_ell_axis_written.
+
+Theorem C03_ell_foci_written : forall (tr : option rtransf) (f1 f2 : pt) (L : R),
+  tr_ok tr -> 0 < L -> vsub f1 (vmul (1 / 2) (vadd f1 f2)) <> (0, 0, 0) ->
+  norm (vsub f1 (vmul (1 / 2) (vadd f1 f2))) <> 2 * L ->
+  exists ts, body_t4 RS tr ELL (pl f1 ++ pl f2 ++ [L]) [] = Ok ts /\
+    Forall2 (same_t4_facet (frame_of tr)) ts (ell_foci_facets f1 f2 L).
+Proof. exact ell_foci_written. Qed.
+Print Assumptions C03_ell_foci_written.
+
+Theorem C03_wed_written : forall (tr : option rtransf) (v a b h : pt),
+  tr_ok tr -> wed_admissible a b h ->
+  exists ts, body_t4 RS tr WED (pl v ++ pl a ++ pl b ++ pl h) [] = Ok ts /\
+    Forall2 (same_t4_facet (frame_of tr)) ts (wed_facets v a b h).
+Proof. exact wed_written. Qed.
+Print Assumptions C03_wed_written.
+
+Theorem C03_arb_written : forall (tr : option rtransf) (V : list pt) (descr : list N),
+  tr_ok tr -> List.length V = 8%nat -> List.length descr = 6%nat ->
+  (1 <= arb_nvert descr <= 8)%nat ->
+  Forall (facet_admissible (firstn (arb_nvert descr) V)
+                           (centroid_of (firstn (arb_nvert descr) V)))
+         (arb_facet_lists descr) ->
+  exists ts, body_t4 RS tr ARB (flat V) descr = Ok ts /\
+    Forall2 (same_t4_facet (frame_of tr)) ts (arb_facets (firstn (arb_nvert descr) V) (arb_facet_lists descr)).
+Proof. exact arb_written. Qed.
+Print Assumptions C03_arb_written.
+
+(* end to end: the MINUS side of all written surfaces of a BOX / WED (sides
+   taken into account) is the solid described without facets, moved *)
+Theorem C03_box_written_solid : forall (tr : option rtransf) (v a1 a2 a3 : pt),
+  tr_ok tr -> box_admissible a1 a2 a3 ->
+  forall ts, body_t4 RS tr BOX (pl v ++ pl a1 ++ pl a2 ++ pl a3) [] = Ok ts ->
+  forall p, t4_all_negative ts p <-> box_inside v a1 a2 a3 (frame_of tr p).
+Proof. exact box_written_solid. Qed.
+Print Assumptions C03_box_written_solid.
+
+Theorem C03_wed_written_solid : forall (tr : option rtransf) (v a b h : pt),
+  tr_ok tr -> wed_admissible a b h ->
+  forall ts, body_t4 RS tr WED (pl v ++ pl a ++ pl b ++ pl h) [] = Ok ts ->
+  forall p, t4_all_negative ts p <-> wed_inside v a b h (frame_of tr p).
+Proof. exact wed_written_solid. Qed.
+Print Assumptions C03_wed_written_solid.
+
+(* ---------------- BOX, any parallelepiped: facet numbering ---------------- *)
+(* only det <> 0: facet 2i-1 is the face at the END of a_i (coordinate s_i = 1
+   of p - v in the basis a1 a2 a3), facet 2i the face s_i = 0, outward positive *)
+Theorem C03_box_general_facet_k : forall v a1 a2 a3 : pt,
+  det a1 a2 a3 <> 0 ->
+  exists es, box RS (pl v ++ pl a1 ++ pl a2 ++ pl a3) = Ok es /\ Forall entry_wf es /\
+             Forall2 same_facet es (para_facets v a1 a2 a3).
+Proof. exact box_general_facets_full. Qed.
+Print Assumptions C03_box_general_facet_k.
+
+Theorem C03_box_general_written : forall (tr : option rtransf) (v a1 a2 a3 : pt),
+  tr_ok tr -> det a1 a2 a3 <> 0 ->
+  exists ts, body_t4 RS tr BOX (pl v ++ pl a1 ++ pl a2 ++ pl a3) [] = Ok ts /\
+    Forall2 (same_t4_facet (frame_of tr)) ts (para_facets v a1 a2 a3).
+Proof. exact box_general_written. Qed.
+Print Assumptions C03_box_general_written.
+
+(* for a right box these facets are those of the manual (BOX above) *)
+Theorem C03_para_facets_right : forall v a1 a2 a3 : pt,
+  box_admissible a1 a2 a3 ->
+  Forall2 (fun f g : pt -> R => exists c, 0 < c /\ forall p, f p = c * g p)
+          (para_facets v a1 a2 a3) (box_facets v a1 a2 a3).
+Proof. exact para_facets_right. Qed.
+Print Assumptions C03_para_facets_right.
+
+(* ---------------- pot_transform: references under TRCL / FILL -------------- *)
+(* a reference n.k (k = S j) in a cell moved by tr: the new collection holds
+   exactly ONE surface and it is the k-th facet in the auxiliary frame -- the
+   facet number survives the transformation *)
+Theorem C03_pot_transform_facet : forall (tr : rtransf) (es : list rentry)
+    (fs : list (pt -> R)) (k : nat) (f : pt -> R),
+  orthogonal tr -> Forall entry_wf es -> Forall2 same_facet es fs ->
+  nth_error fs k = Some f ->
+  exists t, pot_transform_ref RS tr es (Some (S k)) = Ok [t] /\
+            same_t4_facet (to_aux tr) t f.
+Proof. exact pot_transform_facet. Qed.
+Print Assumptions C03_pot_transform_facet.
+
+Theorem C03_pot_transform_whole : forall (tr : rtransf) (es : list rentry) (fs : list (pt -> R)),
+  orthogonal tr -> Forall entry_wf es -> Forall2 same_facet es fs ->
+  exists ts, pot_transform_ref RS tr es None = Ok ts /\
+             Forall2 (same_t4_facet (to_aux tr)) ts fs.
+Proof. exact pot_transform_whole. Qed.
+Print Assumptions C03_pot_transform_whole.
+
+(* n.0 and n.k beyond the last facet are an IndexError under a transformation
+   (CollectionDict._get_item), unlike the untransformed n.0 above *)
+Theorem C03_pot_transform_out_of_range : forall (tr : rtransf) (es : list rentry) (k : nat),
+  (k = 0 \/ List.length es < k)%nat -> pot_transform_ref RS tr es (Some k) = Err EIndex.
+Proof. exact pot_transform_out_of_range. Qed.
+Print Assumptions C03_pot_transform_out_of_range.
+
 (* ---------------- non-vacuity ---------------- *)
 (* the left-handed wedge of DESIGN 8 #20 (a, b swapped) and a left-handed box
    satisfy the hypotheses; so do right-handed ones *)
@@ -394,3 +587,9 @@ Proof.
     cbn [nth_error]; (split; [reflexivity|]); (split; [reflexivity|]); (split; [reflexivity|]);
     unfold norm2, dot, cross, vsub; split; lra.
 Qed.
+
+(* a rotation by the 3-4-5 angle about z with a displacement is an admissible
+   transformation *)
+Example C03_example_transformation :
+  orthogonal ((1, -2, 1 / 2), (3 / 5, 4 / 5, 0), (- 4 / 5, 3 / 5, 0), (0, 0, 1)).
+Proof. unfold orthogonal. repeat split; field. Qed.
